@@ -45,6 +45,8 @@ def install_warning_recorder():
 
 
 class VLoop(base_events.BaseEventLoop):
+    _shutdowns = 0
+
     def __init__(self):
         super().__init__()
         self._vtime = 0.0
@@ -147,7 +149,11 @@ class VLoop(base_events.BaseEventLoop):
             events._set_running_loop(None)
         self.tasks = []
         self._scheduled.clear()
-        gc.collect(1)  # GC-timed "exception never retrieved" / "never awaited" reports become visible now
+        # GC-timed "exception never retrieved" / "never awaited" reports become visible now. A full collection every so
+        # often: tasks, frames and handles form cycles that survive into the oldest generation, which CPython collects
+        # rarely - workers grew by ~10 MB/s on long runs without it.
+        VLoop._shutdowns += 1
+        gc.collect(1 if VLoop._shutdowns % 500 else 2)
         self.warnings = list(_recorded_warnings)
         del _recorded_warnings[:]
         self.close()
